@@ -464,12 +464,40 @@ def hist_stream(ctx):
     n = 32 if ctx.quick() else 600
     lines = gen_cases("hist", n, ctx.seed * 1000 + 9)
     impl = run_impl(lines, jobs=16)
+    # the independent reference: every distinct (profile, document) ALONE in a process of its own (same clock, same configuration)
+    import concurrent.futures, hashlib
+    solo_of = {}
+    for line in lines:
+        case = json.loads(line)
+        for k, d in enumerate(case["docs"]):
+            rc = (case.get("rcs") or [None] * len(case["docs"]))[k]
+            solo_of.setdefault((case["profile"], d, json.dumps(rc)), None)
+    def solo(key):
+        q = {"op": "c06", "id": 0, "profile": key[0], "data": key[1]}
+        if json.loads(key[2]) is not None:
+            q["rc"] = json.loads(key[2])
+        p = subprocess.run([ACVH, "oneshot"], input=json.dumps(q) + "\n", capture_output=True, text=True, timeout=600)
+        for l in p.stdout.split("\n"):
+            if l.strip().startswith("{"):
+                return json.loads(l).get("validate")
+        return None
+    keys = list(solo_of)
+    with concurrent.futures.ThreadPoolExecutor(max_workers=16) as ex:
+        for k, v in zip(keys, ex.map(solo, keys)):
+            solo_of[k] = v
     bad = 0
     docs = 0
     for line, i in zip(lines, impl):
         case = json.loads(line)
         docs += len(case["docs"])
         r = cmp_hist(case, i, None)
+        if not r and i.get("outcome") == "ok":
+            for k, p in enumerate(i["positions"]):
+                ref = solo_of.get((case["profile"], case["docs"][k], json.dumps((case.get("rcs") or [None] * len(case["docs"]))[k])))
+                mine = ("ok:" if p["compiled"] == "ok" else "error:") + (p.get("hash") or "")
+                if ref and p["compiled"] in ("ok", "err") and ref != mine:
+                    r = ("history-vs-alone", f"position {k} ({case['kinds'][k]}) of a history of {len(case['docs'])} documents (kinds before: {case['kinds'][:k]}): the compiled profile's answer differs from the same validation ALONE in a fresh process")
+                    break
         if r:
             bad += 1
             ctx.violation(f"C09:{r[0]}", r[1], {"case": case, "impl": i})
@@ -484,7 +512,7 @@ def hist_stream(ctx):
 
 def check_C09(ctx):
     return skeleton_check(ctx, "C09", "Acv.Props.C09", C09_THEOREMS, extra=hist_stream,
-        rule="histories of 4..9 documents (random graphs that pass/fail, repeats, empty graph, JSON-LD-rejected and undecodable documents) through one PreparedEvalQuery of a random declarative profile with validations on all three levels (one history in six uses a profile that leaves `core`/`apiContract` to the built-in prefix table); in half of the histories OTHER profiles, which rebind built-in aliases or reuse `ex` for another namespace, are validated by the same process between the documents; each report compared byte for byte with a fresh ValidateWithConfiguration under a fixed clock",
+        rule="histories of 4..9 documents (random graphs that pass/fail, repeats, empty graph, JSON-LD-rejected and undecodable documents) through one PreparedEvalQuery of a random declarative profile with validations on all three levels (one history in six uses a profile that leaves `core`/`apiContract` to the built-in prefix table); in half of the histories OTHER profiles, which rebind built-in aliases or reuse `ex` for another namespace, are validated by the same process between the documents; each report compared byte for byte with a fresh ValidateWithConfiguration under a fixed clock in the same process AND with the same validation run alone in a process of its own",
         assumptions=["OPA's PreparedEvalQuery.Eval is a pure function of (query, input) returning fresh result trees: this is the hypothesis of history_independent (Engine.evalDoc) and is only observed by the history runs"])
 
 
